@@ -185,7 +185,8 @@ func c14NewWorld(cfg l1Cfg, ucfg c14Up4Cfg) (*c14World, error) {
 	u.datapath = &c14Tap{UP4: up4, w: w}
 	up4.SetUpfInfo(u, conf)
 
-	deadline := time.Now().Add(10 * time.Second)
+	// (a start-up Read that times out on a loaded machine is retried by the plug-in after 10 s)
+	deadline := time.Now().Add(25 * time.Second)
 	for !u.isConnected() {
 		if time.Now().After(deadline) {
 			return nil, fmt.Errorf("c14: UP4 did not connect to %s", srv.Addr())
